@@ -244,6 +244,14 @@ func (r *treeRef) typedChanges(idx int, yield func(label string, raw *treechange
 	if !emit("identity=stranger,signed-by-member", own, func(c *treechangeproto.TreeChange) { c.Identity = strangeProto }) {
 		return
 	}
+	// correctly signed by somebody without permission, hanging off every change of the tree (head or not)
+	for _, a := range []string{"root", "e1", "e2", "s3", "e4"} {
+		if !emit("identity=stranger,signed-by-stranger,parents=["+a+"]", r.strange, func(c *treechangeproto.TreeChange) {
+			c.Identity, c.TreeHeadIds = strangeProto, []string{ids[a]}
+		}) {
+			return
+		}
+	}
 	if !emit("identity=member,signed-by-stranger", r.strange, func(c *treechangeproto.TreeChange) {}) {
 		return
 	}
@@ -332,6 +340,12 @@ func registerTree(c *vk.Ctx) {
 			defer t.Unlock()
 			_, err = t.AddRawChanges(bg, objecttree.RawChangesPayload{NewHeads: hu.Heads, RawChanges: hu.Changes, SnapshotPath: hu.SnapshotPath})
 			if err != nil {
+				// a rejected payload must leave a tree that takes the next genuine update (a panic here is reported
+				// by the caller like any other; its verdict is not judged)
+				if next := tseeds[si].have + 1; next < len(r.raws) {
+					_, _ = t.AddRawChanges(bg, objecttree.RawChangesPayload{NewHeads: []string{r.raws[next].Id}, RawChanges: []*treechangeproto.RawTreeChangeWithId{r.raws[next]}, SnapshotPath: []string{rootId}})
+				}
+				_ = t.IterateRoot(nil, func(*objecttree.Change) bool { return true })
 				return err
 			}
 			// an accepted payload leaves a usable tree
